@@ -225,6 +225,426 @@ func recursionHasConditionalReturn(fd *ast.FuncDecl) (recursive, guarded bool) {
 	return true, guarded
 }
 
+// ---------------------------------------------------------------- marker discipline of a visited-set walk
+// isSetExpr: does e denote the visited set `set` ("b.walking", "v.visited", "sequencePairs" for *sequencePairs)?
+func isSetExpr(e ast.Expr, set string) bool {
+	switch x := e.(type) {
+	case *ast.ParenExpr:
+		return isSetExpr(x.X, set)
+	case *ast.StarExpr:
+		return isSetExpr(x.X, set)
+	}
+	return strings.Join(selChain(e), ".") == set
+}
+
+type posRange struct{ lo, hi token.Pos }
+
+func (r posRange) has(p token.Pos) bool { return r.lo != 0 && r.lo <= p && p < r.hi }
+
+func mentionsIdent(e ast.Expr, name string) (found, negated bool) {
+	var walk func(n ast.Expr, neg bool)
+	walk = func(n ast.Expr, neg bool) {
+		switch x := n.(type) {
+		case *ast.Ident:
+			if x.Name == name {
+				found, negated = true, neg
+			}
+		case *ast.UnaryExpr:
+			walk(x.X, neg != (x.Op == token.NOT))
+		case *ast.BinaryExpr:
+			walk(x.X, neg)
+			walk(x.Y, neg)
+		case *ast.ParenExpr:
+			walk(x.X, neg)
+		}
+	}
+	walk(e, false)
+	return
+}
+
+// callOnSet: a call in a condition one of whose arguments is the set (`sequencePairsContain(*sequencePairs, pair)`)
+func callOnSet(e ast.Expr, set string) (found, negated bool) {
+	var walk func(n ast.Expr, neg bool)
+	walk = func(n ast.Expr, neg bool) {
+		switch x := n.(type) {
+		case *ast.CallExpr:
+			for _, a := range x.Args {
+				if isSetExpr(a, set) {
+					found, negated = true, neg
+				}
+			}
+		case *ast.UnaryExpr:
+			walk(x.X, neg != (x.Op == token.NOT))
+		case *ast.BinaryExpr:
+			walk(x.X, neg)
+			walk(x.Y, neg)
+		case *ast.ParenExpr:
+			walk(x.X, neg)
+		}
+	}
+	walk(e, false)
+	return
+}
+
+const discUnknown = "{| d_test := false; d_mark := MNever; d_unmark := UNever |}"
+
+// readDiscipline classifies WHEN the function tests, marks and un-marks `set` relative to the call that expands the
+// callee (one of `recurse`): the Walk.discipline of the current source. Anything it cannot classify yields the
+// unknown discipline (not terminating: the dependent obligation fails).
+func readDiscipline(fd *ast.FuncDecl, set string, recurse []string) (string, string) {
+	var cut, enter posRange
+	var testPos token.Pos
+	okIdent := ""
+	var okAssignPos token.Pos
+	deferred := map[token.Pos]bool{}
+	ast.Inspect(fd.Body, func(n ast.Node) bool {
+		if d, ok := n.(*ast.DeferStmt); ok {
+			deferred[d.Call.Pos()] = true
+		}
+		return true
+	})
+	blockRange := func(st ast.Stmt) posRange {
+		if st == nil {
+			return posRange{}
+		}
+		return posRange{st.Pos(), st.End()}
+	}
+	ast.Inspect(fd.Body, func(n ast.Node) bool {
+		if testPos != 0 {
+			return false
+		}
+		switch x := n.(type) {
+		case *ast.IfStmt:
+			if as, ok := x.Init.(*ast.AssignStmt); ok && len(as.Lhs) == 2 && len(as.Rhs) == 1 {
+				if ix, ok := as.Rhs[0].(*ast.IndexExpr); ok && isSetExpr(ix.X, set) {
+					if id, ok := as.Lhs[1].(*ast.Ident); ok {
+						if f, neg := mentionsIdent(x.Cond, id.Name); f {
+							testPos = x.Pos()
+							if neg {
+								enter, cut = blockRange(x.Body), blockRange(x.Else)
+							} else {
+								cut = blockRange(x.Body)
+								if x.Else != nil {
+									enter = blockRange(x.Else)
+								} else if bodyReturns(x.Body) {
+									enter = posRange{x.End(), fd.End()}
+								}
+							}
+							return false
+						}
+					}
+				}
+			}
+			if okIdent != "" && x.Pos() > okAssignPos {
+				if f, neg := mentionsIdent(x.Cond, okIdent); f {
+					testPos = okAssignPos
+					if neg {
+						enter, cut = blockRange(x.Body), blockRange(x.Else)
+					} else {
+						cut = blockRange(x.Body)
+						if x.Else != nil {
+							enter = blockRange(x.Else)
+						} else if bodyReturns(x.Body) {
+							enter = posRange{x.End(), fd.End()}
+						}
+					}
+					return false
+				}
+			}
+			if f, neg := callOnSet(x.Cond, set); f {
+				testPos = x.Pos()
+				if neg {
+					enter, cut = blockRange(x.Body), blockRange(x.Else)
+				} else {
+					cut = blockRange(x.Body)
+					if x.Else != nil {
+						enter = blockRange(x.Else)
+					} else if bodyReturns(x.Body) {
+						enter = posRange{x.End(), fd.End()}
+					}
+				}
+				return false
+			}
+		case *ast.AssignStmt:
+			if len(x.Lhs) == 2 && len(x.Rhs) == 1 && okIdent == "" {
+				if ix, ok := x.Rhs[0].(*ast.IndexExpr); ok && isSetExpr(ix.X, set) {
+					if id, ok := x.Lhs[1].(*ast.Ident); ok {
+						okIdent, okAssignPos = id.Name, x.Pos()
+					}
+				}
+			}
+		}
+		return true
+	})
+	if testPos == 0 || enter.lo == 0 {
+		return discUnknown, "no re-entry test on " + set + " found"
+	}
+	var recPos token.Pos
+	ast.Inspect(fd.Body, func(n ast.Node) bool {
+		if c, ok := n.(*ast.CallExpr); ok && recPos == 0 && enter.has(c.Pos()) {
+			ch := selChain(c.Fun)
+			if len(ch) > 0 {
+				for _, r := range recurse {
+					if ch[len(ch)-1] == r {
+						recPos = c.Pos()
+					}
+				}
+			}
+		}
+		return true
+	})
+	if recPos == 0 {
+		return discUnknown, "the expansion of the callee is not behind the test on " + set
+	}
+	// `if set == nil { set = map[..]..{} }` creates the set, it does not un-mark anything
+	var initRanges []posRange
+	ast.Inspect(fd.Body, func(n ast.Node) bool {
+		if is, ok := n.(*ast.IfStmt); ok {
+			if be, ok := is.Cond.(*ast.BinaryExpr); ok && be.Op == token.EQL && isNilIdent(be.Y) && isSetExpr(be.X, set) {
+				initRanges = append(initRanges, posRange{is.Body.Pos(), is.Body.End()})
+			}
+		}
+		return true
+	})
+	isInit := func(x *ast.AssignStmt) bool {
+		switch r := x.Rhs[0].(type) {
+		case *ast.CompositeLit:
+		case *ast.CallExpr:
+			if !isIdent(r.Fun, "make") {
+				return false
+			}
+		default:
+			return false
+		}
+		for _, ir := range initRanges {
+			if ir.has(x.Pos()) {
+				return true
+			}
+		}
+		return false
+	}
+	var marks, unmarks []string
+	classifyMark := func(p token.Pos) {
+		switch {
+		case p < testPos:
+			marks = append(marks, "MBeforeTest")
+		case enter.has(p) && p < recPos:
+			marks = append(marks, "MAfterTest")
+		default:
+			marks = append(marks, "?")
+		}
+	}
+	classifyUnmark := func(p token.Pos, def bool) {
+		switch {
+		case cut.has(p):
+			unmarks = append(unmarks, "UEveryExit")
+		case def && p < testPos:
+			unmarks = append(unmarks, "UEveryExit")
+		case def && enter.has(p):
+			unmarks = append(unmarks, "UAfterExpansion")
+		case !def && enter.has(p) && p > recPos:
+			unmarks = append(unmarks, "UAfterExpansion")
+		case !def && p > testPos && !enter.has(p) && enter.hi < fd.End():
+			unmarks = append(unmarks, "UEveryExit") // behind the if/else: runs on the cut path too
+		default:
+			unmarks = append(unmarks, "?")
+		}
+	}
+	ast.Inspect(fd.Body, func(n ast.Node) bool {
+		switch x := n.(type) {
+		case *ast.AssignStmt:
+			if len(x.Lhs) == 1 && len(x.Rhs) == 1 && (x.Tok == token.ASSIGN || x.Tok == token.ADD_ASSIGN || x.Tok == token.SUB_ASSIGN) {
+				if ix, ok := x.Lhs[0].(*ast.IndexExpr); ok && isSetExpr(ix.X, set) {
+					if x.Tok == token.SUB_ASSIGN {
+						classifyUnmark(x.Pos(), false)
+					} else {
+						classifyMark(x.Pos())
+					}
+				} else if isSetExpr(x.Lhs[0], set) && !isInit(x) {
+					if c, ok := x.Rhs[0].(*ast.CallExpr); ok && isIdent(c.Fun, "append") && len(c.Args) >= 2 && isSetExpr(c.Args[0], set) {
+						classifyMark(x.Pos())
+					} else {
+						classifyUnmark(x.Pos(), false) // the list is cut back or replaced
+					}
+				}
+			}
+		case *ast.IncDecStmt:
+			if ix, ok := x.X.(*ast.IndexExpr); ok && isSetExpr(ix.X, set) {
+				if x.Tok == token.INC {
+					classifyMark(x.Pos())
+				} else {
+					classifyUnmark(x.Pos(), false)
+				}
+			}
+		case *ast.CallExpr:
+			if isIdent(x.Fun, "delete") && len(x.Args) == 2 && isSetExpr(x.Args[0], set) {
+				classifyUnmark(x.Pos(), deferred[x.Pos()])
+			}
+		}
+		return true
+	})
+	mark := "MNever"
+	for _, m := range marks {
+		if m == "?" || (mark != "MNever" && mark != m) {
+			return discUnknown, fmt.Sprintf("marks of %s not classified: %v", set, marks)
+		}
+		mark = m
+	}
+	unmark := "UNever"
+	for _, u := range unmarks {
+		if u == "?" {
+			return discUnknown, fmt.Sprintf("un-marks of %s not classified: %v", set, unmarks)
+		}
+		if u == "UEveryExit" || unmark == "UNever" {
+			unmark = u
+		}
+	}
+	return fmt.Sprintf("{| d_test := true; d_mark := %s; d_unmark := %s |}", mark, unmark), fmt.Sprintf("marks %v un-marks %v", marks, unmarks)
+}
+
+// the arms of writeCreateSQLForAColumn: does each assign the definition `s` a fmt.Sprintf with a non-blank format?
+func coldefArms(fd *ast.FuncDecl) (ref, auto, plain, fkOnly bool) {
+	nonBlankSprintf := func(e ast.Expr) bool {
+		if c, isCall := e.(*ast.CallExpr); isCall {
+			if ch := selChain(c.Fun); len(ch) == 2 && ch[0] == "fmt" && ch[1] == "Sprintf" && len(c.Args) > 0 {
+				if lit, isLit := c.Args[0].(*ast.BasicLit); isLit {
+					txt := strings.ReplaceAll(strings.ReplaceAll(strings.Trim(lit.Value, "\"`"), "\\n", ""), "\\t", "")
+					return len(strings.TrimSpace(txt)) >= 2
+				}
+			}
+		}
+		return false
+	}
+	// an arm is fine when it assigns s a non-blank Sprintf at its top level, assigns s nothing else anywhere and never returns
+	armOK := func(b *ast.BlockStmt) bool {
+		if b == nil {
+			return false
+		}
+		top, bad := false, false
+		for _, st := range b.List {
+			if x, ok := st.(*ast.AssignStmt); ok && len(x.Lhs) == 1 && isIdent(x.Lhs[0], "s") && len(x.Rhs) == 1 && nonBlankSprintf(x.Rhs[0]) {
+				top = true
+			}
+		}
+		ast.Inspect(b, func(n ast.Node) bool {
+			switch x := n.(type) {
+			case *ast.ReturnStmt:
+				bad = true
+			case *ast.IfStmt:
+				if exprMentions(x.Cond, "isAutoIncrement") {
+					return false // the nested arms are judged on their own
+				}
+			case *ast.AssignStmt:
+				for i, l := range x.Lhs {
+					if isIdent(l, "s") && !(len(x.Rhs) == len(x.Lhs) && nonBlankSprintf(x.Rhs[i])) {
+						bad = true
+					}
+				}
+			}
+			return true
+		})
+		return top && !bad
+	}
+	// the final return must hand out s, and s must not be assigned outside the arms
+	last, isRet := fd.Body.List[len(fd.Body.List)-1].(*ast.ReturnStmt)
+	if !isRet || len(last.Results) == 0 || !isIdent(last.Results[0], "s") {
+		return
+	}
+	for _, st := range fd.Body.List {
+		if as, ok := st.(*ast.AssignStmt); ok && len(as.Lhs) >= 1 && isIdent(as.Lhs[0], "s") {
+			return
+		}
+		is, ok := st.(*ast.IfStmt)
+		if !ok {
+			continue
+		}
+		// the reference arm: `if attrType.GetTypeRef() != nil {` (every reference) or
+		// `if t, c, isForeignKey := foreignKeyTarget(attrType); isForeignKey {` (only <table>.<column> references)
+		mentionsTypeRef := false
+		ast.Inspect(is.Cond, func(n ast.Node) bool {
+			if id, ok := n.(*ast.Ident); ok && id.Name == "GetTypeRef" {
+				mentionsTypeRef = true
+			}
+			return true
+		})
+		viaTarget := false
+		if as, ok := is.Init.(*ast.AssignStmt); ok && len(as.Rhs) == 1 && len(as.Lhs) == 3 {
+			if c, ok := as.Rhs[0].(*ast.CallExpr); ok && isIdent(c.Fun, "foreignKeyTarget") {
+				if id, ok := as.Lhs[2].(*ast.Ident); ok && isIdent(is.Cond, id.Name) {
+					viaTarget = true
+				}
+			}
+		}
+		if !mentionsTypeRef && !viaTarget {
+			continue
+		}
+		fkOnly = viaTarget
+		ref = armOK(is.Body)
+		if eb, ok := is.Else.(*ast.BlockStmt); ok {
+			for _, st2 := range eb.List {
+				if is2, ok := st2.(*ast.IfStmt); ok && exprMentions(is2.Cond, "isAutoIncrement") {
+					auto = armOK(is2.Body)
+					if eb2, ok := is2.Else.(*ast.BlockStmt); ok {
+						plain = armOK(eb2)
+					}
+				}
+			}
+		}
+	}
+	return
+}
+
+// uncheckedAsserts: type assertions x.(T) whose failure panics: not the right-hand side of a two-value assignment /
+// definition, not the tag of a type switch
+func uncheckedAsserts(fd *ast.FuncDecl) int {
+	checked := map[*ast.TypeAssertExpr]bool{}
+	ast.Inspect(fd.Body, func(nd ast.Node) bool {
+		switch x := nd.(type) {
+		case *ast.AssignStmt:
+			if len(x.Lhs) == 2 && len(x.Rhs) == 1 {
+				if ta, ok := x.Rhs[0].(*ast.TypeAssertExpr); ok {
+					checked[ta] = true
+				}
+			}
+		case *ast.ValueSpec:
+			if len(x.Names) == 2 && len(x.Values) == 1 {
+				if ta, ok := x.Values[0].(*ast.TypeAssertExpr); ok {
+					checked[ta] = true
+				}
+			}
+		}
+		return true
+	})
+	n := 0
+	ast.Inspect(fd.Body, func(nd ast.Node) bool {
+		if ta, ok := nd.(*ast.TypeAssertExpr); ok && ta.Type != nil && !checked[ta] {
+			n++
+		}
+		return true
+	})
+	return n
+}
+
+// selfRecursive: the body calls the function itself - `f(..)` for a function, `<receiver>.f(..)` for a method
+func selfRecursive(fd *ast.FuncDecl) bool {
+	rv := recvVar(fd)
+	found := false
+	ast.Inspect(fd.Body, func(nd ast.Node) bool {
+		if c, ok := nd.(*ast.CallExpr); ok {
+			if fd.Recv == nil && isIdent(c.Fun, fd.Name.Name) {
+				found = true
+			}
+			if fd.Recv != nil && rv != "" {
+				if ch := selChain(c.Fun); len(ch) == 2 && ch[0] == rv && ch[1] == fd.Name.Name {
+					found = true
+				}
+			}
+		}
+		return true
+	})
+	return found
+}
+
 func coqBool(b bool) string {
 	if b {
 		return "true"
@@ -271,7 +691,6 @@ func cmdGuards(repo string) (string, error) {
 	if err != nil {
 		return "", err
 	}
-	gIntsWalk := hasCommaOkReturn(fdWalk)
 	// ---- datamodel
 	_, fdDraw, err := need("pkg/datamodeldiagram/datamodelview.go", "DataModelView", "DrawRelation")
 	if err != nil {
@@ -338,6 +757,11 @@ func cmdGuards(repo string) (string, error) {
 	if hasLenTest(fdResp, "returnStatement", "parts") {
 		gOa3 = true
 	}
+	// does mapResponse walk into blocks for return statements (syslwrapper.ReturnStatements)?
+	gOa3Nested := countCalls(fdResp, func(c *ast.CallExpr) bool {
+		ch := selChain(c.Fun)
+		return len(ch) > 0 && ch[len(ch)-1] == "ReturnStatements"
+	}) > 0
 	// ---- database
 	gfDb, fdFtd, err := need("pkg/database/db_utils.go", "", "findTableDepth")
 	if err != nil {
@@ -345,6 +769,28 @@ func cmdGuards(repo string) (string, error) {
 	}
 	fdFk := findFunc(gfDb, "", "foreignKeyTarget")
 	gDbPath := pathSafe(fdFtd) && pathSafe(fdFk)
+	// does findTableDepth leave a table incomplete for a reference that is not <table>.<column>? Not when the test of
+	// foreignKeyTarget's ok result has an else arm that does not reset allAttrProcessed.
+	gDbShortDone := false
+	ast.Inspect(fdFtd.Body, func(nd ast.Node) bool {
+		if is, ok := nd.(*ast.IfStmt); ok {
+			if as, ok := is.Init.(*ast.AssignStmt); ok && len(as.Rhs) == 1 && len(as.Lhs) == 3 {
+				if c, ok := as.Rhs[0].(*ast.CallExpr); ok && isIdent(c.Fun, "foreignKeyTarget") {
+					if id, ok := as.Lhs[2].(*ast.Ident); ok && isIdent(is.Cond, id.Name) && is.Else != nil {
+						resets := false
+						ast.Inspect(is.Else, func(n2 ast.Node) bool {
+							if a2, ok := n2.(*ast.AssignStmt); ok && len(a2.Lhs) == 1 && isIdent(a2.Lhs[0], "allAttrProcessed") {
+								resets = true
+							}
+							return true
+						})
+						gDbShortDone = !resets
+					}
+				}
+			}
+		}
+		return true
+	})
 	_, fdPtd, err := need("pkg/database/db_utils.go", "", "processTableDepth")
 	if err != nil {
 		return "", err
@@ -370,6 +816,124 @@ func cmdGuards(repo string) (string, error) {
 		return "", err
 	}
 	gMint := !hasFieldOnLookup(fdMint, "Endpoints")
+	// ---- marker disciplines of the visited-set walks
+	discInts, noteInts := readDiscipline(fdWalk, "b.walking", []string{"ProcessCalls"})
+	notes = append(notes, "WalkPassthrough b.walking: "+noteInts)
+	discMseq, noteMseq := readDiscipline(fdMseq, "sequencePairs", []string{"generateSequenceDiagramHelper"})
+	notes = append(notes, "printSequenceDiagramStatements sequencePairs: "+noteMseq)
+	_, fdMintPrint, err := need("pkg/mermaid/integrationdiagram/integrationdiagram.go", "", "printIntegrationDiagramStatements")
+	if err != nil {
+		return "", err
+	}
+	discMint, noteMint := readDiscipline(fdMintPrint, "integrationPairs", []string{"generateIntegrationDiagramHelper"})
+	notes = append(notes, "printIntegrationDiagramStatements integrationPairs: "+noteMint)
+	_, fdSd, err := need("pkg/cmdutils/visitor.go", "SequenceDiagramVisitor", "visitEndpoint")
+	if err != nil {
+		return "", err
+	}
+	discSd, noteSd := readDiscipline(fdSd, "v.visited", []string{"Accept"})
+	notes = append(notes, "visitEndpoint v.visited: "+noteSd)
+	// the call target is resolved with the error-returning lookup, not with the panicking application()/endpoint()
+	gSdTarget := countCalls(fdSd, func(c *ast.CallExpr) bool {
+		ch := selChain(c.Fun)
+		return len(ch) == 2 && ch[0] == "e" && ch[1] == "target"
+	}) > 0 &&
+		countCalls(fdSd, func(c *ast.CallExpr) bool {
+			ch := selChain(c.Fun)
+			return len(ch) == 2 && ch[0] == "e" && (ch[1] == "application" || ch[1] == "endpoint")
+		}) == 0
+	// ---- delta scripts
+	_, fdModify, err := need("pkg/database/databasescriptview.go", "ScriptView", "generateDatabaseScriptModify")
+	if err != nil {
+		return "", err
+	}
+	gDeltaRel := true
+	nilTested := map[string]bool{}
+	ast.Inspect(fdModify.Body, func(nd ast.Node) bool {
+		if be, ok := nd.(*ast.BinaryExpr); ok && be.Op == token.NEQ && isNilIdent(be.Y) {
+			if id, ok := be.X.(*ast.Ident); ok {
+				nilTested[id.Name] = true
+			}
+		}
+		return true
+	})
+	ast.Inspect(fdModify.Body, func(nd ast.Node) bool {
+		if c, ok := nd.(*ast.CallExpr); ok {
+			ch := selChain(c.Fun)
+			if len(ch) == 2 && (ch[1] == "writeCreateSQLForATable" || ch[1] == "writeModifySQLForATable") {
+				nrel := 1
+				if ch[1] == "writeModifySQLForATable" {
+					nrel = 2
+				}
+				for i := 1; i <= nrel && i < len(c.Args); i++ {
+					id, isId := c.Args[i].(*ast.Ident)
+					if !isId || !nilTested[id.Name] {
+						gDeltaRel = false
+					}
+				}
+			}
+		}
+		return true
+	})
+	_, fdColumn, err := need("pkg/database/postgres.go", "ScriptView", "writeCreateSQLForAColumn")
+	if err != nil {
+		return "", err
+	}
+	cdRef, cdAuto, cdPlain, cdFkOnly := coldefArms(fdColumn)
+	_, fdModTable, err := need("pkg/database/postgres.go", "ScriptView", "writeModifySQLForATable")
+	if err != nil {
+		return "", err
+	}
+	slicesStr := false
+	ast.Inspect(fdModTable.Body, func(nd ast.Node) bool {
+		if se, ok := nd.(*ast.SliceExpr); ok && isIdent(se.X, "str") && se.High != nil {
+			if _, isLit := se.High.(*ast.BasicLit); !isLit {
+				slicesStr = true
+			}
+		}
+		return true
+	})
+	gDeltaTrim := !slicesStr || hasLenTest(fdModTable, "str")
+	// ---- template / test-rig
+	_, fdTmplExec, err := need("cmd/sysl/cmd_template.go", "templateCmd", "Execute")
+	if err != nil {
+		return "", err
+	}
+	nilAppSkip := func(rel, recv string) (bool, error) {
+		_, fd, err := need(rel, recv, "Apply")
+		if err != nil {
+			return false, err
+		}
+		found := false
+		ast.Inspect(fd.Body, func(nd ast.Node) bool {
+			if is, ok := nd.(*ast.IfStmt); ok {
+				if be, ok := is.Cond.(*ast.BinaryExpr); ok && be.Op == token.EQL && isNilIdent(be.Y) && exprMentions(be.X, "Apps", "GetApps") {
+					for _, st := range is.Body.List {
+						if br, ok := st.(*ast.BranchStmt); ok && br.Tok == token.CONTINUE {
+							found = true
+						}
+					}
+				}
+			}
+			return true
+		})
+		return found, nil
+	}
+	libT, err := nilAppSkip("pkg/transforms/templates.go", "templated")
+	if err != nil {
+		return "", err
+	}
+	libS, err := nilAppSkip("pkg/transforms/semantic.go", "semantic")
+	if err != nil {
+		return "", err
+	}
+	gTmplApp := hasCommaOkReturn(fdTmplExec) || (libT && libS)
+	notes = append(notes, fmt.Sprintf("template: lookup in Execute=%v, nil skip in templated.Apply=%v semantic.Apply=%v", hasCommaOkReturn(fdTmplExec), libT, libS))
+	_, fdNeedsDB, err := need("pkg/testrig/testrig.go", "", "appNeedsDB")
+	if err != nil {
+		return "", err
+	}
+	gRigNil := hasNilTestReturn(fdNeedsDB)
 	// ---- renderer
 	gfDiag, err := parseGo(repo, "cmd/sysl/cmd_diagram.go")
 	if err != nil {
@@ -413,13 +977,16 @@ func cmdGuards(repo string) (string, error) {
 	// ---- table of panic / exit sites in the packages the commands drive
 	dirs := []string{"cmd/sysl", "pkg/cmdutils", "pkg/integrationdiagram", "pkg/datamodeldiagram", "pkg/database", "pkg/exporter",
 		"pkg/mermaid", "pkg/mermaid/sequencediagram", "pkg/mermaid/integrationdiagram", "pkg/mermaid/datamodeldiagram",
-		"pkg/mermaid/endpointanalysisdiagram", "pkg/sequencediagram", "pkg/syslwrapper", "pkg/syslutil", "pkg/loader"}
+		"pkg/mermaid/endpointanalysisdiagram", "pkg/sequencediagram", "pkg/syslwrapper", "pkg/syslutil", "pkg/loader",
+		// round 3: the packages template, codegen, transform, test-rig, repl and lsp reach
+		"pkg/transforms", "pkg/testrig", "pkg/eval", "pkg/validate", "pkg/ebnfparser", "pkg/arrai/transform", "pkg/lspimpl", "pkg/lspimpl/lspframework", "pkg/msg"}
 	type site struct {
 		fn   string
 		kind string
 		ord  int
 	}
 	var sites []site
+	var recursive []string
 	for _, d := range dirs {
 		ents, err := os.ReadDir(filepath.Join(repo, d))
 		if err != nil {
@@ -450,6 +1017,9 @@ func cmdGuards(repo string) (string, error) {
 					name += r + "."
 				}
 				name += fd.Name.Name
+				if selfRecursive(fd) {
+					recursive = append(recursive, name)
+				}
 				np := countCalls(fd, isPanicCall)
 				for i := 0; i < np; i++ {
 					sites = append(sites, site{name, "panic", i + 1})
@@ -458,16 +1028,20 @@ func cmdGuards(repo string) (string, error) {
 				for i := 0; i < ne; i++ {
 					sites = append(sites, site{name, "exit", i + 1})
 				}
+				na := uncheckedAsserts(fd)
+				for i := 0; i < na; i++ {
+					sites = append(sites, site{name, "assert", i + 1})
+				}
 			}
 		}
 	}
 	var b strings.Builder
 	b.WriteString("(* GENERATED by translate/cmdguards.go from the repository source - do not edit. *)\n")
-	b.WriteString("From Coq Require Import List String NArith.\nImport ListNotations.\nRequire Import Verif.Cmds.Model.\nLocal Open Scope string_scope.\n\n")
-	fmt.Fprintf(&b, "Definition current : guards := {|\n  g_ints_target := %s;\n  g_ints_walk_once := %s;\n  g_dm_path := %s;\n  g_swagger_rest := %s;\n  g_sw_param_schema := %s;\n  g_oa3_ret_split := %s;\n  g_db_path := %s;\n  g_db_writer_path := %s;\n  g_db_progress := %s;\n  g_mseq_err := %s;\n  g_mint_app := %s;\n  g_render_recover := %s |}.\n\n",
-		coqBool(gIntsTarget), coqBool(gIntsWalk), coqBool(gDmPath), coqBool(gSwagger), coqBool(gSwParam), coqBool(gOa3), coqBool(gDbPath), coqBool(gDbWriter), coqBool(gDbProgress), coqBool(gMseq), coqBool(gMint), coqBool(gRender))
+	b.WriteString("From Coq Require Import List String NArith.\nImport ListNotations.\nRequire Import Verif.Cmds.Walk Verif.Cmds.Model.\nLocal Open Scope string_scope.\n\n")
+	fmt.Fprintf(&b, "Definition current : guards := {|\n  g_ints_target := %s;\n  g_ints_disc := %s;\n  g_dm_path := %s;\n  g_swagger_rest := %s;\n  g_sw_param_schema := %s;\n  g_oa3_ret_split := %s;\n  g_db_path := %s;\n  g_db_writer_path := %s;\n  g_db_progress := %s;\n  g_mseq_err := %s;\n  g_mseq_disc := %s;\n  g_mint_app := %s;\n  g_mint_disc := %s;\n  g_render_recover := %s;\n  g_sd_target := %s;\n  g_sd_disc := %s;\n  g_delta_relation := %s;\n  g_coldef_ref := %s;\n  g_coldef_auto := %s;\n  g_coldef_plain := %s;\n  g_delta_trim := %s;\n  g_db_short_done := %s;\n  g_coldef_fk_only := %s;\n  g_oa3_nested_rets := %s;\n  g_tmpl_app := %s;\n  g_rig_nilapp := %s |}.\n\n",
+		coqBool(gIntsTarget), discInts, coqBool(gDmPath), coqBool(gSwagger), coqBool(gSwParam), coqBool(gOa3), coqBool(gDbPath), coqBool(gDbWriter), coqBool(gDbProgress), coqBool(gMseq), discMseq, coqBool(gMint), discMint, coqBool(gRender), coqBool(gSdTarget), discSd, coqBool(gDeltaRel), coqBool(cdRef), coqBool(cdAuto), coqBool(cdPlain), coqBool(gDeltaTrim), coqBool(gDbShortDone), coqBool(cdFkOnly), coqBool(gOa3Nested), coqBool(gTmplApp), coqBool(gRigNil))
 	fmt.Fprintf(&b, "(* cmd/sysl main / main2 / main3 / cmdRunner.Run run the command under a deferred recover *)\nDefinition top_recover : bool := %s.\n\n", coqBool(topRecover))
-	b.WriteString("(* (package.function, kind, ordinal) of every panic( / os.Exit / *.Fatal* call in the packages the commands drive *)\n")
+	b.WriteString("(* (package.function, kind, ordinal) of every panic( call [panic], os.Exit / *.Fatal* call [exit] and type assertion without ok [assert] in the packages the commands drive *)\n")
 	b.WriteString("Definition abort_sites : list (string * string * N) := [\n")
 	for i, s := range sites {
 		sep := ";"
@@ -475,6 +1049,16 @@ func cmdGuards(repo string) (string, error) {
 			sep = ""
 		}
 		fmt.Fprintf(&b, "  (\"%s\", \"%s\", %d%%N)%s\n", s.fn, s.kind, s.ord, sep)
+	}
+	b.WriteString("].\n\n")
+	b.WriteString("(* package.function of every function of those packages that calls itself directly *)\n")
+	b.WriteString("Definition recursive_functions : list string := [\n")
+	for i, r := range recursive {
+		sep := ";"
+		if i == len(recursive)-1 {
+			sep = ""
+		}
+		fmt.Fprintf(&b, "  \"%s\"%s\n", r, sep)
 	}
 	b.WriteString("].\n\n")
 	for _, n := range notes {
